@@ -556,38 +556,6 @@ fn scen_key(s: &Scenario) -> String {
     format!("{:08x}", f.get() as u32)
 }
 
-fn minimise(run: &Run, okey: &str, seed: u64, what: &str) -> Violation {
-    let ok = okey.to_string();
-    let fails = move |r: &Run| -> bool {
-        fresh_thread(|| check_run(r, None)).key.map(|(k, _)| k == ok).unwrap_or(false)
-    };
-    let (min, tried) = shrink_run(
-        run.clone(),
-        &fails,
-        ShrinkOpts {
-            drop_tasks: true,
-            drop_players: true,
-            narrow_scopes: true,
-            max_candidates: 400,
-        },
-    );
-    let fin = fresh_thread(|| check_run(&min, None));
-    let detail = fin.key.map(|x| x.1).unwrap_or_else(|| "(not reproduced after shrink)".into());
-    let mut rj = min.to_json();
-    rj["kind"] = json!("c04_run");
-    rj["shrink_candidates"] = json!(tried);
-    rj["found_by"] = json!(what);
-    let scopes: Vec<String> = min.specs.iter().map(|s| format!("{}..{}", pos_str(s.from()), pos_str(s.to()))).collect();
-    Violation {
-        property: "C04".into(),
-        oracle: okey.to_string(),
-        key: format!("{okey}:{}:{}", scopes.join("+"), scen_key(&min.scens[0])),
-        detail: format!("{} | scopes {} | {}", min.scens[0].short(), scopes.join(" "), detail),
-        seed,
-        replay: rj,
-    }
-}
-
 // ---------------------------------------------------------------------- sweeps
 
 /// Drain one scoped evaluator directly (no world bookkeeping) and compare with
@@ -792,110 +760,6 @@ fn window_run(scen: &Scenario, from: Pos, to: Pos, polls: u8) -> Run {
     }
 }
 
-struct SweepOut {
-    windows: u64,
-    calls: u64,
-    bad: Vec<(Pos, Pos)>,
-    distinct: Vec<u64>,
-    consumer_runs: u64,
-    consumer_bad: Vec<(Pos, Pos, String, String)>,
-}
-
-/// For every start position: the listed ends (all ends when `all_pairs`).
-fn sweep_windows(built: &BuiltScen, u: Arc<URef>, all_pairs: bool, extra_random: usize, seed: u64) -> SweepOut {
-    let b = built.clone();
-    let outs = par_map(NPOS, workers(), move |fi| {
-        let from = pos_from_index(fi);
-        let mut rng = Rng::new(crate::rng::mix(seed, fi as u64));
-        let mut tos: Vec<usize> = vec![];
-        if all_pairs {
-            tos.extend(fi..=NPOS);
-        } else {
-            tos.push(fi);
-            tos.push(fi + 1);
-            tos.push(pos_index((from.0, 48))); // last of the row
-            tos.push((pos_index((from.0, 48)) + 1).min(NPOS)); // first of next row
-            tos.push(NPOS);
-            for _ in 0..extra_random {
-                tos.push(rng.range(fi as u64, NPOS as u64) as usize);
-            }
-            tos.sort();
-            tos.dedup();
-        }
-        let mut o = SweepOut { windows: 0, calls: 0, bad: vec![], distinct: vec![], consumer_runs: 0, consumer_bad: vec![] };
-        for ti in tos {
-            let to = pos_from_index(ti);
-            let (c, ok) = direct_window(&b, &u, from, to, 2);
-            o.windows += 1;
-            o.calls += c;
-            o.distinct.push(((fi as u64) << 16) | ti as u64);
-            if !ok && o.bad.len() < 4 {
-                o.bad.push((from, to));
-            }
-            // a sample of the windows also through the std consumers
-            if !all_pairs || (ti - fi) % 97 == 0 {
-                let kind = CONSUMER_KINDS[(fi * 7 + ti) % CONSUMER_KINDS.len()];
-                if (fi + ti) % 3 == 0 {
-                    o.consumer_runs += 1;
-                    if let Some(d) = consumer_window(&b, &u, from, to, kind) {
-                        if o.consumer_bad.len() < 2 {
-                            o.consumer_bad.push((from, to, kind.to_string(), d));
-                        }
-                    }
-                }
-            }
-        }
-        o
-    });
-    let mut tot = SweepOut { windows: 0, calls: 0, bad: vec![], distinct: vec![], consumer_runs: 0, consumer_bad: vec![] };
-    for o in outs {
-        tot.windows += o.windows;
-        tot.calls += o.calls;
-        tot.bad.extend(o.bad);
-        tot.distinct.extend(o.distinct);
-        tot.consumer_runs += o.consumer_runs;
-        tot.consumer_bad.extend(o.consumer_bad);
-    }
-    tot
-}
-
-/// Crash-point sweep: crash after the k-th yield for every k in `ks`, resume
-/// from the checkpoint, and require the concatenation to be the window of U.
-fn sweep_crashes(built: &BuiltScen, u: Arc<URef>, from: Pos, to: Pos, ks: Vec<u64>) -> (u64, u64, Vec<u64>, BTreeMap<String, u64>) {
-    let b = built.clone();
-    let ks2 = ks.clone();
-    let res = par_map(ks.len(), workers(), move |i| {
-        let k = ks2[i];
-        let mut steps: Vec<Step> = vec![];
-        for _ in 0..k {
-            steps.push(Step { task: 0, exec: INLINE, op: Op::Next });
-        }
-        steps.push(Step { task: 0, exec: INLINE, op: Op::CrashResume });
-        steps.push(Step { task: 0, exec: INLINE, op: Op::Drain });
-        let run = Run {
-            scens: vec![b.scen.clone()],
-            specs: vec![TaskSpec { scen: 0, scope: Some((from, to)), pre: vec![], extra_polls: 1 }],
-            steps,
-            execs: 0,
-        };
-        let r = check_run(&run, Some((&b, &u)));
-        (k, r.next_calls, r.key.is_some(), r.probes)
-    });
-    let mut calls = 0;
-    let mut bad = vec![];
-    let mut probes: BTreeMap<String, u64> = BTreeMap::new();
-    for (k, c, isbad, p) in res {
-        calls += c;
-        if isbad {
-            bad.push(k);
-        }
-        for (a, b) in p {
-            *probes.entry(a).or_insert(0) += b;
-        }
-    }
-    (ks.len() as u64, calls, bad, probes)
-}
-
 fn fixed_scenarios(vs: u64, quick: bool) -> Vec<(String, Scenario)> {
     let one = 1.0f32.to_bits();
     let half = 0.5f32.to_bits();
@@ -932,286 +796,416 @@ fn fixed_scenarios(vs: u64, quick: bool) -> Vec<(String, Scenario)> {
     v
 }
 
-/// What one exploration covers; the dev-profile child uses a reduced one.
+/// What one exploration covers, derived from the tier string ("quick",
+/// "thorough", and the reduced "quick/dev", "thorough/dev" run by the
+/// dev-profile binary).
 #[derive(Clone, Copy)]
 struct Plan {
     quick: bool,
     dev: bool,
     all_pairs: bool,
     extra_ends: usize,
-    nruns: usize,
+    nruns: u64,
     max_players: usize,
+}
+
+fn plan_for(tier: &str) -> Plan {
+    let quick = tier.starts_with("quick");
+    if tier.ends_with("/dev") {
+        Plan { quick, dev: true, all_pairs: false, extra_ends: if quick { 1 } else { 6 }, nruns: if quick { 120 } else { 1500 }, max_players: 3 }
+    } else {
+        Plan { quick, dev: false, all_pairs: !quick, extra_ends: if quick { 24 } else { 64 }, nruns: if quick { 1500 } else { 100_000 }, max_players: if quick { 4 } else { 8 } }
+    }
+}
+
+type Fixed = (BuiltScen, Arc<URef>);
+static FIXED: std::sync::Mutex<Option<BTreeMap<String, Fixed>>> = std::sync::Mutex::new(None);
+
+/// Fixed sweep scenario by name, built (with its unscoped reference) once per process.
+fn fixed(tier: &str, name: &str) -> Option<Fixed> {
+    let mut g = FIXED.lock().unwrap();
+    let m = g.get_or_insert_with(BTreeMap::new);
+    if let Some(x) = m.get(name) {
+        return Some(x.clone());
+    }
+    let plan = plan_for(tier);
+    let scen = fixed_scenarios(verif_seed(), plan.quick || plan.dev).into_iter().find(|(n, _)| n == name)?.1;
+    let built = BuiltScen { scen: scen.clone(), ranges: Arc::new(scen.build_ranges()) };
+    let u = Arc::new(uref(&built));
+    m.insert(name.to_string(), (built.clone(), u.clone()));
+    Some((built, u))
+}
+
+fn sweep_names(tier: &str) -> Vec<String> {
+    let plan = plan_for(tier);
+    fixed_scenarios(verif_seed(), plan.quick || plan.dev)
+        .into_iter()
+        .map(|(n, _)| n)
+        .filter(|n| !(plan.dev && n == "2-player"))
+        .collect()
+}
+
+/// Crash points swept for a scenario: after every yield when the run is short,
+/// else after the first, middle and last yield of every position.
+fn crash_points(u: &URef) -> Vec<u64> {
+    let total = u.start[u.known_upto] as u64;
+    let mut ks: Vec<u64> = vec![];
+    if total <= 1300 {
+        ks.extend(0..=total);
+    } else {
+        for pi in 0..u.known_upto {
+            let a = u.start[pi] as u64;
+            let b = u.start[pi + 1] as u64;
+            if b > a {
+                ks.push(a + 1);
+                ks.push(a + (b - a + 1) / 2);
+                ks.push(b);
+            }
+        }
+        ks.push(0);
+        ks.sort();
+        ks.dedup();
+    }
+    ks
+}
+
+const CRASH_GROUP: usize = 8;
+
+fn to_replay(run: &Run) -> Value {
+    let mut rj = run.to_json();
+    rj["kind"] = json!("c04_run");
+    rj
+}
+
+fn crash_run(scen: &Scenario, to: Pos, k: u64) -> Run {
+    let mut steps: Vec<Step> = (0..k).map(|_| Step { task: 0, exec: INLINE, op: Op::Next }).collect();
+    steps.push(Step { task: 0, exec: INLINE, op: Op::CrashResume });
+    steps.push(Step { task: 0, exec: INLINE, op: Op::Drain });
+    Run {
+        scens: vec![scen.clone()],
+        specs: vec![TaskSpec { scen: 0, scope: Some((FIRST, to)), pre: vec![], extra_polls: 1 }],
+        steps,
+        execs: 0,
+    }
+}
+
+/// One case of a C04 batch:
+///   plain | faults      — a seeded simulated run
+///   win:<scenario>      — every swept window starting at position index i
+///   crash:<scenario>    — crash points ks[i*8 .. i*8+8] of the scenario's line
+pub fn case(batch: &str, tier: &str, i: u64) -> CaseOut {
+    let vs = verif_seed();
+    let plan = plan_for(tier);
+    let mut out = CaseOut { index: i, seed: run_seed(vs, "C04", batch, i), ..Default::default() };
+    if batch == "plain" || batch == "faults" {
+        let c = gen_case(out.seed, batch == "faults", plan.max_players, plan.dev);
+        out.evals = 1;
+        out.steps = c.res.next_calls;
+        out.log = c.res.log;
+        out.faults = c.res.faults.clone();
+        out.probes = c.res.probes.clone();
+        let nf: u64 = c.res.faults.values().sum();
+        *out.probes.entry("global_states_seen_sum_over_runs".into()).or_insert(0) += c.res.states as u64;
+        out.extra = json!({"trace": c.res.trace_hash.to_string()});
+        if c.res.skipped.is_some() {
+            *out.probes.entry("seeded_runs_skipped_reference_abnormal".into()).or_insert(0) += 1;
+            return out;
+        }
+        if c.ntasks >= 2 || nf > 0 {
+            let mut f = Fold::new();
+            f.add_str(&scen_key(&c.run.scens[0]));
+            for s in &c.run.specs {
+                f.add(pos_index_safe(s.from()) as u64);
+                f.add(pos_index_safe(s.to()) as u64);
+            }
+            f.add(c.res.trace_hash);
+            out.distinct.push(f.get());
+        }
+        if nf > 0 || c.ntasks > 2 {
+            out.sample = Some(c.sample.clone());
+        }
+        if let Some((okey, detail)) = &c.res.key {
+            out.violation = Some((okey.clone(), detail.clone(), to_replay(&c.run)));
+        }
+        return out;
+    }
+    let (kind, name) = batch.split_once(':').unwrap_or((batch, ""));
+    let Some((built, u)) = fixed(tier, name) else {
+        eprintln!("unknown sweep scenario {name}");
+        std::process::exit(2);
+    };
+    if !u.usable {
+        *out.probes.entry("sweep_cases_skipped_reference_abnormal".into()).or_insert(0) += 1;
+        return out;
+    }
+    let sk = {
+        let mut f = Fold::new();
+        f.add_str(&scen_key(&built.scen));
+        f.get()
+    };
+    let mut lf = Fold::new();
+    match kind {
+        "win" => {
+            let fi = i as usize;
+            let from = pos_from_index(fi);
+            let all_pairs = plan.all_pairs && (name == "0-player" || name == "1-player" || name == "2-player");
+            let mut rng = Rng::new(crate::rng::mix(run_seed(vs, "C04", name, 1), fi as u64));
+            let mut tos: Vec<usize> = vec![];
+            if all_pairs {
+                tos.extend(fi..=NPOS);
+            } else {
+                tos.push(fi);
+                tos.push(fi + 1);
+                tos.push(pos_index((from.0, 48)));
+                tos.push((pos_index((from.0, 48)) + 1).min(NPOS));
+                tos.push(NPOS);
+                for _ in 0..plan.extra_ends {
+                    tos.push(rng.range(fi as u64, NPOS as u64) as usize);
+                }
+                tos.sort();
+                tos.dedup();
+            }
+            let mut consumer_runs = 0u64;
+            let mut bad = 0u64;
+            for ti in tos {
+                let to = pos_from_index(ti);
+                let (c, ok) = direct_window(&built, &u, from, to, 2);
+                out.evals += 1;
+                out.steps += c;
+                lf.add(c);
+                lf.add(ok as u64);
+                if ti != fi {
+                    out.distinct.push(crate::rng::mix(sk, ((fi as u64) << 16) | ti as u64));
+                }
+                if !ok {
+                    bad += 1;
+                    if out.violation.is_none() {
+                        let run = window_run(&built.scen, from, to, 2);
+                        if let Some((okey, detail)) = check_run(&run, Some((&built, &u))).key {
+                            out.violation = Some((okey, detail, to_replay(&run)));
+                        }
+                    }
+                }
+                if (!all_pairs || (ti - fi) % 97 == 0) && (fi + ti) % 3 == 0 {
+                    let kind = CONSUMER_KINDS[(fi * 7 + ti) % CONSUMER_KINDS.len()];
+                    consumer_runs += 1;
+                    out.evals += 1;
+                    if let Some(d) = consumer_window(&built, &u, from, to, kind) {
+                        bad += 1;
+                        if out.violation.is_none() {
+                            out.violation = Some((
+                                format!("consumer_equivalence:{kind}"),
+                                format!("{} | scope {}..{} drained with {kind}: {d}", built.scen.short(), pos_str(from), pos_str(to)),
+                                json!({"kind":"c04_consumer","scenario": built.scen.to_json(), "from": [from.0, from.1], "to": [to.0, to.1], "consumer": kind}),
+                            ));
+                        }
+                    }
+                }
+            }
+            *out.probes.entry("windows_drained_through_std_consumers".into()).or_insert(0) += consumer_runs;
+            if all_pairs {
+                *out.probes.entry("all_pairs_windows".into()).or_insert(0) += out.evals - consumer_runs;
+            }
+            out.extra = json!({"mismatches": bad});
+        }
+        "crash" => {
+            let ks = crash_points(&u);
+            let sweep_to = pos_from_index(u.known_upto);
+            let lo = (i as usize) * CRASH_GROUP;
+            let mut bad = 0u64;
+            for k in ks.iter().skip(lo).take(CRASH_GROUP) {
+                let run = crash_run(&built.scen, sweep_to, *k);
+                let r = check_run(&run, Some((&built, &u)));
+                out.evals += 1;
+                out.steps += r.next_calls;
+                lf.add(r.log);
+                *out.faults.entry("crash_resume".into()).or_insert(0) += 1;
+                out.distinct.push(crate::rng::mix(sk ^ 0xC4A5, *k));
+                for (a, b) in r.probes {
+                    *out.probes.entry(a).or_insert(0) += b;
+                }
+                if let Some((okey, detail)) = r.key {
+                    bad += 1;
+                    if out.violation.is_none() {
+                        out.violation = Some((okey, detail, to_replay(&run)));
+                    }
+                }
+            }
+            out.extra = json!({"mismatches": bad});
+        }
+        _ => {
+            eprintln!("unknown C04 batch {batch}");
+            std::process::exit(2);
+        }
+    }
+    out.log = lf.get();
+    out
+}
+
+pub fn eval(v: &Value) -> Option<(String, String)> {
+    if v["kind"].as_str() == Some("c04_consumer") {
+        let scen = Scenario::from_json(&v["scenario"]).ok()?;
+        let g = |k: &str| -> Pos { (v[k][0].as_u64().unwrap_or(0) as u8, v[k][1].as_u64().unwrap_or(0) as u8) };
+        let (from, to) = (g("from"), g("to"));
+        let kind = v["consumer"].as_str().unwrap_or("collect").to_string();
+        let built = BuiltScen { scen: scen.clone(), ranges: Arc::new(scen.build_ranges()) };
+        let u = uref(&built);
+        return consumer_window(&built, &u, from, to, &kind).map(|d| (format!("consumer_equivalence:{kind}"), d));
+    }
+    let run = Run::from_json(v).ok()?;
+    check_run(&run, None).key
+}
+
+fn minimise_json(replay: &Value, _okey: &str, pred: &dyn Fn(&Value) -> bool) -> (Value, usize) {
+    if replay["kind"].as_str() == Some("c04_consumer") {
+        return (replay.clone(), 0);
+    }
+    let Ok(run) = Run::from_json(replay) else { return (replay.clone(), 0) };
+    let fails = move |r: &Run| -> bool { pred(&to_replay(r)) };
+    let (min, tried) = shrink_run(
+        run,
+        &fails,
+        ShrinkOpts { drop_tasks: true, drop_players: true, narrow_scopes: true, max_candidates: 300 },
+    );
+    (to_replay(&min), tried)
+}
+
+fn key_json(okey: &str, min: &Value) -> String {
+    let prefix = if min["profile"].as_str() == Some("dev") { "dev:" } else { "" };
+    if min["kind"].as_str() == Some("c04_consumer") {
+        let g = |k: &str| -> Pos { (min[k][0].as_u64().unwrap_or(0) as u8, min[k][1].as_u64().unwrap_or(0) as u8) };
+        let sk = Scenario::from_json(&min["scenario"]).map(|s| scen_key(&s)).unwrap_or_default();
+        return format!("{prefix}{okey}:{}..{}:{sk}", pos_str(g("from")), pos_str(g("to")));
+    }
+    match Run::from_json(min) {
+        Ok(run) => {
+            let scopes: Vec<String> = run.specs.iter().map(|s| format!("{}..{}", pos_str(s.from()), pos_str(s.to()))).collect();
+            format!("{prefix}{okey}:{}:{}", scopes.join("+"), scen_key(&run.scens[0]))
+        }
+        Err(_) => format!("{prefix}{okey}"),
+    }
+}
+
+fn describe(v: &mut Violation) {
+    if let Ok(run) = Run::from_json(&v.replay) {
+        let scopes: Vec<String> = run.specs.iter().map(|s| format!("{}..{}", pos_str(s.from()), pos_str(s.to()))).collect();
+        v.detail = format!("{} | scopes {} | {}", run.scens[0].short(), scopes.join(" "), v.detail);
+    }
+    if v.replay["profile"].as_str() == Some("dev") {
+        v.detail = format!("[dev profile] {}", v.detail);
+        if !v.key.starts_with("dev:") {
+            v.key = format!("dev:{}", v.key);
+        }
+    }
 }
 
 pub fn run(tier: &str) -> i32 {
     let vs = verif_seed();
-    let quick = tier == "quick";
     let mut ev = Evidence::new("C04", tier, "fault_enumeration");
-    ev.rule = "sweeps: one evaluation per (scenario, from, to) window drained and compared with the unscoped run, and per (scenario, crash point) crash+resume run; seeded runs: one evaluation per simulated run (chain of scopes or windows, seeded schedule, crash_resume/crash_restart/rescope/poll_after_end/migrate faults). distinct_nontrivial = distinct (scenario, from, to) windows with from<to, distinct crash points, and distinct (scenario, scope list, schedule trace) hashes of seeded runs that had >= 2 tasks or >= 1 fired fault. The release-profile exploration is followed by a reduced one in a dev-profile child (overflow checks and debug assertions on), whose counts are added".into();
+    ev.rule = "sweeps: one evaluation per (scenario, from, to) window drained and compared with the unscoped run (a sample of them also through the std consumers), and per (scenario, crash point) crash+resume run; seeded runs: one evaluation per simulated run (chain of scopes or windows, seeded schedule, crash_resume/crash_restart/rescope/poll_after_end/migrate faults). distinct_nontrivial = distinct (scenario, from, to) windows with from<to, distinct crash points, and distinct (scenario, scope list, schedule trace) hashes of seeded runs that had >= 2 tasks or >= 1 fired fault. The release-profile exploration is followed by a reduced one run by the dev-profile binary (overflow checks and debug assertions on), whose counts are added".into();
     ev.assumptions = vec![
         "reference is the repository's own unscoped evaluator built from the same Vec<HandRange> value (real-vs-real): C04 is decided independently of whether the full enumeration itself is right (C02)".into(),
         "only valid positions and the terminal as scope bounds, from <= to (outside that the statement is silent)".into(),
+        "the statement fixes the order of positions, not the order of showdowns inside one position: sequences are compared exactly first and per position as multisets if that fails".into(),
         "where the unscoped run panics or does not terminate, only windows ending before that point are compared; an unscoped run that is out of position order makes the scenario unusable (counted) — that is C08/C02 territory".into(),
-        "flops and ranges are sampled, the scope/cut/crash dimension is swept".into(),
+        "flops and ranges are sampled, the scope/cut/crash dimension is swept; cases run in child processes, a deterministic chunk of case indexes per process, each case on a fresh thread".into(),
     ];
     let mut logfold = Fold::new();
-    let plan = Plan {
-        quick,
-        dev: false,
-        all_pairs: !quick,
-        extra_ends: if quick { 24 } else { 64 },
-        nruns: if quick { 1500 } else { 100_000 },
-        max_players: if quick { 4 } else { 8 },
-    };
-    explore(&mut ev, vs, &plan, &mut logfold);
-    // the same machinery, reduced, in a dev-profile build of the harness
-    match dev_child(tier) {
-        Ok(v) => {
-            ev.evaluations += v["evaluations"].as_u64().unwrap_or(0);
-            ev.steps += v["steps"].as_u64().unwrap_or(0);
-            ev.extra.insert("dev_profile_child".into(), json!({
-                "evaluations": v["evaluations"], "steps": v["steps"], "violations": v["violations"].as_array().map(|a| a.len()).unwrap_or(0),
-                "event_log_digest": v["event_log_digest"], "distinct_nontrivial": v["distinct"].as_array().map(|a| a.len()).unwrap_or(0),
-            }));
-            if let Some(a) = v["distinct"].as_array() {
-                for d in a {
-                    if let Some(x) = d.as_str().and_then(|x| x.parse::<u64>().ok()) {
-                        ev.distinct.insert(x ^ 0xDE5);
+    let mut traces: std::collections::BTreeSet<u64> = Default::default();
+    let mut sweep_summary = vec![];
+    for dev in [false, true] {
+        let t: String = if dev { format!("{tier}/dev") } else { tier.to_string() };
+        let plan = plan_for(&t);
+        if dev && std::env::var("SIM_DEV").is_err() {
+            eprintln!("HARNESS ERROR: SIM_DEV not set (run through ./check)");
+            return 2;
+        }
+        let mut batches: Vec<(String, u64, u64)> = vec![]; // (batch, cases, chunk)
+        for name in sweep_names(&t) {
+            let Some((_, u)) = fixed(&t, &name) else { continue };
+            if !u.usable {
+                ev.probe("sweep_scenarios_skipped_reference_abnormal", 1);
+                continue;
+            }
+            if !u.complete {
+                ev.probe("sweep_reference_incomplete", 1);
+            }
+            let all_pairs = plan.all_pairs && (name == "0-player" || name == "1-player" || name == "2-player");
+            batches.push((format!("win:{name}"), NPOS as u64, if all_pairs { 8 } else { 24 }));
+            let ks = crash_points(&u).len();
+            batches.push((format!("crash:{name}"), ((ks + CRASH_GROUP - 1) / CRASH_GROUP) as u64, 16));
+            if all_pairs {
+                ev.exhaustive = Some(false);
+            }
+        }
+        batches.push(("plain".into(), plan.nruns, if plan.quick { 8 } else { 64 }));
+        batches.push(("faults".into(), plan.nruns, if plan.quick { 8 } else { 64 }));
+        let mut dev_evals = 0u64;
+        for (batch, n, chunk) in batches {
+            let chunks = run_batch("C04", &batch, n, chunk, &t, dev);
+            let mut b_evals = 0u64;
+            let mut b_bad = 0u64;
+            for (ci, ch) in chunks.iter().enumerate() {
+                let chunk_first = ci as u64 * chunk;
+                if let Some((i, how)) = &ch.died {
+                    let mut rj = json!({"kind":"chunk","batch":batch,"first":chunk_first,"upto":i,"tier":t,"expected_oracle":"process_died"});
+                    if dev {
+                        rj["profile"] = json!("dev");
+                    }
+                    ev.violations.push(Violation {
+                        property: "C04".into(),
+                        oracle: "process_died".into(),
+                        key: format!("process_died:history:{batch}:{chunk_first}..={i}"),
+                        detail: format!("the process driving the scoped evaluators ended with {how} at case {i} of batch '{batch}'{}", if dev { " [dev profile]" } else { "" }),
+                        seed: vs,
+                        replay: rj,
+                    });
+                }
+                for c in &ch.cases {
+                    ev.merge_case(c);
+                    b_evals += c.evals;
+                    b_bad += c.extra["mismatches"].as_u64().unwrap_or(0);
+                    logfold.add(c.log);
+                    if let Some(tr) = c.extra["trace"].as_str().and_then(|x| x.parse::<u64>().ok()) {
+                        traces.insert(tr);
+                    }
+                    if let Some(sm) = &c.sample {
+                        if ev.samples.len() < 8 {
+                            ev.sample(sm.clone());
+                        }
+                    }
+                    if c.violation.is_some() {
+                        if ev.violations.len() < 8 {
+                            let mut v = settle_violation("C04", &batch, &t, dev, chunk_first, c, &minimise_json, &key_json);
+                            describe(&mut v);
+                            ev.violations.push(v);
+                        } else {
+                            ev.probe("further_violations_not_minimised", 1);
+                        }
                     }
                 }
             }
-            if let Some(a) = v["violations"].as_array() {
-                for x in a {
-                    let mut replay = x["replay"].clone();
-                    replay["profile"] = json!("dev");
-                    ev.violations.push(Violation {
-                        property: "C04".into(),
-                        oracle: x["oracle"].as_str().unwrap_or("").to_string(),
-                        key: format!("dev:{}", x["key"].as_str().unwrap_or("")),
-                        detail: format!("[dev profile] {}", x["detail"].as_str().unwrap_or("")),
-                        seed: x["seed"].as_str().and_then(|s| s.parse().ok()).unwrap_or(vs),
-                        replay,
-                    });
-                }
+            if batch.contains(':') {
+                sweep_summary.push(json!({"batch": batch, "profile": if dev {"dev"} else {"release"}, "evaluations": b_evals, "mismatches": b_bad}));
             }
-            ev.fault("profile_dev", v["evaluations"].as_u64().unwrap_or(0));
-        }
-        Err(e) => {
-            eprintln!("HARNESS ERROR: dev-profile child: {e}");
-            return 2;
-        }
-    }
-    ev.extra.insert("event_log_digest".into(), json!(format!("{:016x}", logfold.get())));
-    ev.extra.insert("components".into(), json!({
-        "real": ["FlopExhaustiveEvaluator::{new,scope,into_iter}", "iterator next()", "Showdown::new", "MadeHand", "HandRange collect/clone (hooked hasher)"],
-        "stub": ["coordinator handing out scopes and checkpoints (simulator)"],
-        "simulated": ["which worker advances next", "executor thread of each call", "crash/resume, restart, rescope, polls after exhaustion", "build profile (release run + dev child)"],
-    }));
-    ev.extra.insert("inventory_shared_state".into(), json!(inventory()));
-    ev.finish()
-}
-
-fn dev_child(tier: &str) -> Result<Value, String> {
-    let bin = std::env::var("SIM_DEV").map_err(|_| "SIM_DEV not set (run through ./check)".to_string())?;
-    let out = std::process::Command::new(&bin)
-        .arg("c04-dev")
-        .arg(tier)
-        .stderr(std::process::Stdio::inherit())
-        .output()
-        .map_err(|e| format!("{bin}: {e}"))?;
-    if !out.status.success() {
-        return Err(format!("{bin} c04-dev ended with {}", out.status));
-    }
-    let text = String::from_utf8_lossy(&out.stdout);
-    let line = text.lines().rev().find(|l| l.starts_with('{')).ok_or("no JSON from dev child")?;
-    serde_json::from_str(line).map_err(|e| e.to_string())
-}
-
-/// `espada-sim c04-dev <tier>` (the dev-profile binary): reduced exploration, JSON on stdout.
-pub fn dev_child_main(tier: &str) -> i32 {
-    let vs = verif_seed();
-    let quick = tier == "quick";
-    let mut ev = Evidence::new("C04", tier, "fault_enumeration");
-    let mut logfold = Fold::new();
-    let plan = Plan {
-        quick: true,
-        dev: true,
-        all_pairs: false,
-        extra_ends: if quick { 1 } else { 6 },
-        nruns: if quick { 120 } else { 1500 },
-        max_players: 3,
-    };
-    explore(&mut ev, vs, &plan, &mut logfold);
-    let out = json!({
-        "evaluations": ev.evaluations,
-        "steps": ev.steps,
-        "event_log_digest": format!("{:016x}", logfold.get()),
-        "distinct": ev.distinct.iter().take(200_000).map(|d| d.to_string()).collect::<Vec<_>>(),
-        "violations": ev.violations.iter().map(|v| v.to_json()).collect::<Vec<_>>(),
-    });
-    println!("{}", out);
-    0
-}
-
-fn explore(ev: &mut Evidence, vs: u64, plan: &Plan, logfold: &mut Fold) {
-    let quick = plan.quick;
-    // ---------------- deterministic sweeps
-    let fixed = fixed_scenarios(vs, quick);
-    let mut sweep_summary = vec![];
-    for (name, scen) in &fixed {
-        let built = BuiltScen { scen: scen.clone(), ranges: Arc::new(scen.build_ranges()) };
-        let u = Arc::new(uref(&built));
-        if !u.usable {
-            ev.probe("sweep_scenarios_skipped_reference_abnormal", 1);
-            sweep_summary.push(json!({"scenario": name, "skipped": u.why}));
-            continue;
-        }
-        // window sweep
-        let all_pairs = plan.all_pairs && (name == "0-player" || name == "1-player" || name == "2-player");
-        let extra = plan.extra_ends;
-        if plan.dev && name == "2-player" {
-            continue; // dev child: the two cheap fixed scenarios only
-        }
-        let so = sweep_windows(&built, u.clone(), all_pairs, extra, run_seed(vs, "C04", name, 1));
-        ev.evaluations += so.windows;
-        ev.steps += so.calls;
-        if all_pairs {
-            ev.probe("all_pairs_windows", so.windows);
-        }
-        let sk = { let mut f = Fold::new(); f.add_str(&scen_key(scen)); f.get() };
-        for d in &so.distinct {
-            if (d >> 16) != (d & 0xffff) {
-                ev.distinct.insert(crate::rng::mix(sk, *d));
+            if dev {
+                dev_evals += b_evals;
             }
         }
-        for (from, to) in so.bad.iter().take(2) {
-            let run = window_run(scen, *from, *to, 2);
-            let r = check_run(&run, None);
-            if let Some((okey, _)) = r.key {
-                ev.violations.push(minimise(&run, &okey, vs, &format!("window sweep on {name}")));
-            }
-        }
-        ev.evaluations += so.consumer_runs;
-        ev.probe("windows_drained_through_std_consumers", so.consumer_runs);
-        let mut seen_kinds: Vec<String> = vec![];
-        for (from, to, kind, d) in so.consumer_bad.iter() {
-            if seen_kinds.contains(kind) {
-                continue;
-            }
-            seen_kinds.push(kind.clone());
-            ev.violations.push(Violation {
-                property: "C04".into(),
-                oracle: format!("consumer_equivalence:{kind}"),
-                key: format!("consumer_equivalence:{kind}:{}..{}:{}", pos_str(*from), pos_str(*to), scen_key(scen)),
-                detail: format!("{} | scope {}..{} drained with {kind}: {d}", scen.short(), pos_str(*from), pos_str(*to)),
-                seed: vs,
-                replay: json!({"kind":"c04_consumer","scenario": scen.to_json(), "from": [from.0, from.1], "to": [to.0, to.1], "consumer": kind}),
-            });
-        }
-        // crash sweep over the whole line (or as far as the reference is known)
-        let sweep_to = pos_from_index(u.known_upto);
-        if !u.complete {
-            ev.probe("sweep_reference_incomplete", 1);
-        }
-        let total = u.start[u.known_upto] as u64;
-        let mut ks: Vec<u64> = vec![];
-        if total <= 1300 {
-            ks.extend(0..=total);
-        } else {
-            for pi in 0..u.known_upto {
-                let a = u.start[pi] as u64;
-                let b = u.start[pi + 1] as u64;
-                if b > a {
-                    ks.push(a + 1);
-                    ks.push(a + (b - a + 1) / 2);
-                    ks.push(b);
-                }
-            }
-            ks.push(0);
-            ks.sort();
-            ks.dedup();
-        }
-        let (n1, c1, bad1, pr1) = sweep_crashes(&built, u.clone(), FIRST, sweep_to, ks.clone());
-        ev.evaluations += n1;
-        ev.steps += c1;
-        ev.fault("crash_resume", n1);
-        for k in &ks {
-            ev.distinct.insert(crate::rng::mix(sk ^ 0xC4A5, *k));
-        }
-        for (a, b) in pr1 {
-            ev.probe(&a, b);
-        }
-        for k in bad1.iter().take(2) {
-            let mut steps: Vec<Step> = (0..*k).map(|_| Step { task: 0, exec: INLINE, op: Op::Next }).collect();
-            steps.push(Step { task: 0, exec: INLINE, op: Op::CrashResume });
-            steps.push(Step { task: 0, exec: INLINE, op: Op::Drain });
-            let run = Run {
-                scens: vec![scen.clone()],
-                specs: vec![TaskSpec { scen: 0, scope: Some((FIRST, sweep_to)), pre: vec![], extra_polls: 1 }],
-                steps,
-                execs: 0,
-            };
-            let r = check_run(&run, None);
-            if let Some((okey, _)) = r.key {
-                ev.violations.push(minimise(&run, &okey, vs, &format!("crash sweep on {name}, crash after yield {k}")));
-            }
-        }
-        sweep_summary.push(json!({
-            "scenario": name, "desc": scen.short(), "unscoped_showdowns": total,
-            "windows": so.windows, "all_pairs": all_pairs, "window_mismatches": so.bad.len(),
-            "crash_points": n1, "crash_mismatches": bad1.len(),
-            "positions_with_zero_showdowns": u.zero_positions,
-        }));
-        if all_pairs {
-            ev.exhaustive = Some(false);
+        if dev {
+            ev.fault("profile_dev", dev_evals);
         }
     }
     ev.extra.insert("sweeps".into(), json!(sweep_summary));
-
-    // ---------------- seeded runs (fault-free batch and fault-injecting batch)
-    let nruns: usize = plan.nruns;
-    let mut traces: std::collections::BTreeSet<u64> = Default::default();
-    let max_players = plan.max_players;
-    let small = plan.dev;
-    for (batch, faults_on) in [("plain", false), ("faults", true)] {
-        let cases = par_map(nruns, workers(), move |i| {
-            fresh_thread(|| gen_case(run_seed(vs, "C04", batch, i as u64), faults_on, max_players, small))
-        });
-        for c in cases {
-            ev.evaluations += 1;
-            ev.steps += c.res.next_calls;
-            logfold.add(c.res.log);
-            let nf: u64 = c.res.faults.values().sum();
-            ev.probe("global_states_seen_sum_over_runs", c.res.states as u64);
-            traces.insert(c.res.trace_hash);
-            ev.merge_counts(&c.res.faults, &c.res.probes);
-            if let Some(_s) = &c.res.skipped {
-                ev.probe("seeded_runs_skipped_reference_abnormal", 1);
-                continue;
-            }
-            if c.ntasks >= 2 || nf > 0 {
-                let mut f = Fold::new();
-                f.add_str(&scen_key(&c.run.scens[0]));
-                for s in &c.run.specs {
-                    f.add(pos_index_safe(s.from()) as u64);
-                    f.add(pos_index_safe(s.to()) as u64);
-                }
-                f.add(c.res.trace_hash);
-                ev.distinct.insert(f.get());
-            }
-            if ev.samples.len() < 8 && (nf > 0 || c.ntasks > 2) {
-                ev.sample(c.sample.clone());
-            }
-            if let Some((okey, _)) = &c.res.key {
-                if ev.violations.len() < 6 {
-                    ev.violations.push(minimise(&c.run, okey, c.seed, &format!("seeded batch {batch}")));
-                } else {
-                    ev.probe("further_violations_not_minimised", 1);
-                }
-            }
-        }
-    }
     ev.probe("distinct_schedule_traces", traces.len() as u64);
+    ev.extra.insert("event_log_digest".into(), json!(format!("{:016x}", logfold.get())));
+    ev.extra.insert("components".into(), json!({
+        "real": ["FlopExhaustiveEvaluator::{new,scope,into_iter}", "iterator next() and the std consumers on it", "Showdown::new", "MadeHand", "HandRange collect/clone (hooked hasher)"],
+        "stub": ["coordinator handing out scopes and checkpoints (simulator)"],
+        "simulated": ["which worker advances next", "executor thread of each call", "crash/resume, restart, rescope, polls after exhaustion", "build profile (release binary + dev binary)"],
+    }));
+    ev.extra.insert("inventory_shared_state".into(), json!(inventory()));
+    ev.finish()
 }
 
 fn pos_index_safe(p: Pos) -> usize {
@@ -1224,23 +1218,9 @@ fn pos_index_safe(p: Pos) -> usize {
 
 pub fn replay(v: &Value) -> Option<(String, String)> {
     let r = &v["replay"];
-    if r["kind"].as_str() == Some("c04_consumer") {
-        let scen = Scenario::from_json(&r["scenario"]).ok()?;
-        let g = |k: &str| -> Pos { (r[k][0].as_u64().unwrap_or(0) as u8, r[k][1].as_u64().unwrap_or(0) as u8) };
-        let (from, to) = (g("from"), g("to"));
-        let kind = r["consumer"].as_str().unwrap_or("collect").to_string();
-        let built = BuiltScen { scen: scen.clone(), ranges: Arc::new(scen.build_ranges()) };
-        let u = uref(&built);
-        let prefix = if r["profile"].as_str() == Some("dev") { "dev:" } else { "" };
-        return consumer_window(&built, &u, from, to, &kind).map(|d| {
-            (format!("{prefix}consumer_equivalence:{kind}:{}..{}:{}", pos_str(from), pos_str(to), scen_key(&scen)), d)
-        });
+    let dev = r["profile"].as_str() == Some("dev");
+    if r["kind"].as_str() == Some("chunk") {
+        return replay_chunk("C04", r);
     }
-    let run = Run::from_json(r).ok()?;
-    let res = check_run(&run, None);
-    let prefix = if r["profile"].as_str() == Some("dev") { "dev:" } else { "" };
-    res.key.map(|(okey, d)| {
-        let scopes: Vec<String> = run.specs.iter().map(|s| format!("{}..{}", pos_str(s.from()), pos_str(s.to()))).collect();
-        (format!("{prefix}{okey}:{}:{}", scopes.join("+"), scen_key(&run.scens[0])), d)
-    })
+    eval_in_child("C04", r, dev).map(|(k, d)| (key_json(&k, r), d))
 }
